@@ -59,12 +59,17 @@ def history(sh: Shard, seed, idx):
         if early_positions:
             # the positions touched during the handshake change again, silently, and are refreshed
             forced = [("silent", p_) for p_ in early_positions] + [("refresh", None), ("statp", None)]
-        for step in range(r.randrange(6, 20)):
+        long_lived = idx == 0  # one connection per run with enough acknowledgements for the counter to wrap twice
+        if long_lived:
+            sh.count("threaded_long_connections")
+        for step in range(420 if long_lived else r.randrange(6, 20)):
             n0 = len(rig.net.log)
             x = r.random()
             force = forced.pop(0) if forced else None
             if force:
                 x = {"silent": 0.6, "refresh": 0.9, "statp": 0.1}[force[0]]
+            elif long_lived:
+                x = 0.1 if step % 40 else 0.9
             if x < 0.5:
                 ch = [(r.choice([r.randrange(0, 1022), 300, 301]), word()) for _ in range(r.choice([0, 1, 1, 2, 5]))]
                 rig.set_sim_block(apply_changes(rig.sim_block, ch))
@@ -135,3 +140,4 @@ def add(run, tier, seed):
     run.need(run.counters.get("threaded_points_matched", 0) > 200, "threaded client: too few comparison points")
     run.need(run.counters.get("threaded_early_statp", 0) > 10, "threaded client: no partial update during the handshake")
     run.need(run.counters.get("threaded_acks_ok", 0) > 100, "threaded client: too few acknowledgements")
+    run.need(run.counters.get("threaded_long_connections", 0) >= 1, "threaded client: the long-lived connection was not driven")
